@@ -29,7 +29,7 @@ var c17LitCFG *cfg.CFG
 var c17Paths map[*types.Package]string
 
 func c17FuncLit(c *ctrlflow.CFGs, lit *ast.FuncLit) *cfg.CFG { return c17LitCFG }
-func c17PkgPath(p *types.Package) string                      { return c17Paths[p] }
+func c17PkgPath(p *types.Package) string                     { return c17Paths[p] }
 
 func Harness_C17_Templ() {
 	c17Paths = map[*types.Package]string{}
